@@ -42,19 +42,26 @@ private theorem relUnit_cases {m : M Unit} {s : Spec.R Unit} (h : RelUnit m s) :
   · right; rename_i x y; exact ⟨x, rfl, by rw [h.1], h.2⟩
   · exact h.elim
 
-private theorem contains_map_snd (l : List (Bytes × Bytes)) (key : Bytes) :
-    (l.map (·.2)).contains key = l.any (fun p => p.2 == key) := by
-  induction l with
-  | nil => rfl
-  | cons p ps ih =>
-    simp only [List.map_cons, List.contains_cons, List.any_cons, ih]
-    congr 1
-    exact BEq.comm
+private theorem pairListed_keyListed (cfg : Spec.Cfg) (sig key : Bytes) (h : Spec.pairListed cfg sig key = true) :
+    Spec.keyListed cfg key = true := by
+  unfold Spec.pairListed at h
+  unfold Spec.keyListed
+  rw [List.any_eq_true]
+  have := List.contains_iff_mem.mp h
+  exact ⟨(sig, key), this, by simp⟩
 
 private theorem mock_eq {cx : Ctx} {e : SEE} {cfg : Spec.Cfg} (hc : CfgRel cx e cfg) (sig key : Bytes) :
     (e.pretendKeys.contains key && pretendLookup e.pretendMap sig == some key) = Spec.mockHit cfg sig key := by
-  unfold Spec.mockHit pretendLookup
-  rw [hc.pretendMap, hc.pretendKeys, contains_map_snd]
+  unfold Spec.mockHit
+  by_cases hk : e.pretendKeys.contains key = true
+  · rw [hk, Bool.true_and]; exact hc.pretendPair sig key hk
+  · have hk' : e.pretendKeys.contains key = false := by simpa using hk
+    rw [hk', Bool.false_and]
+    cases hp : Spec.pairListed cfg sig key
+    · rfl
+    · have := pairListed_keyListed cfg sig key hp
+      rw [← hc.pretendKeys key, hk'] at this
+      cases this
 
 private theorem rel_execdata {e : SEE} {st : Spec.St} (h : Rel e st) (ed : ExecData) (w : Int)
     (hcs : ed.codesepPos = st.codesepPos) (hwl : ed.weightLeft = w) (hwi : ed.weightInit = st.weightInit) :
